@@ -1182,7 +1182,50 @@ def full_queue_scenarios():
         time.sleep(0.9)
         s._mid['gate'].set()
 
+    # the documented shutdown, close() then join(), while a peer's message is being received and the bounded incoming queue is
+    # full: join() waits for the incoming thread with whatever it holds; that thread must not need any of it to finish the
+    # message it is handling (real incoming thread: one client, held back until the controller is inside join())
+    def join_while_incoming_full(s):
+        d = s.dist
+        bound_incoming(s)
+        st = {'in_join': threading.Event(), 'done': threading.Event()}
+        data = d._crypto.encrypt("{} {} {} {} {}".format('urn_b', 'key_b', 0, 0, make_payloads_cache['updated']))
+
+        class HeldBack(FakeSocket):
+            def recv(self, n):
+                st['in_join'].wait(2.0)
+                return super().recv(n)
+
+        def incoming():
+            try:
+                d._tcp_incoming_handle_client(HeldBack(data, 1 << 16), '127.0.0.9', int(time.time()))
+            except Exception:   # noqa  (a full queue is reported loudly: the documented behaviour)
+                pass
+            finally:
+                st['done'].set()
+
+        class Announcing(threading.Thread):
+            def join(self, timeout=None):
+                st['in_join'].set()               # the controller is inside BoboDistributedTCP.join() now
+                return super().join(timeout)
+        d._thread_incoming = Announcing(target=incoming, daemon=True, name='real-incoming')
+        d._thread_outgoing = FakeThread()
+        d._thread_incoming.start()
+        s._jn = st
+
+    def controller_close_join(s, p):
+        s.dist.close()
+        s.dist.join()
+
+    def engine_after_close(s, p):
+        s._jn['in_join'].wait(2.0)
+        time.sleep(0.2)
+        s.feed(1)
+        s.engine.update()                         # a local change reported to a closed distributed component (needs its local lock)
+
     return [
+        ('shutdown-join-while-a-message-is-received', join_while_incoming_full, ('controller', controller_close_join),
+         [('engine', engine_after_close)]),
         ('main-ends-while-outgoing-mid-pass', main_ends_mid_pass, ('dist_main', main_run),
          [('controller', controller_close), ('engine', engine_publishes), ('feeder', release_send)]),
         ('receiver-last-slot-race', bound_receiver_one_slot, ('feeder', feeder_first),
